@@ -17,6 +17,11 @@ CONSTANTS
   StaleDump = FALSE
   LicMemoBySynopsis = FALSE
   ParseMemoAliased = FALSE
+  CommaSeparates = FALSE
+  RejectDrops = FALSE
+  RejAt = {}
+  RejThen = 0
+  RejEditAt = {}
 SPECIFICATION Spec
 INVARIANT CodecProps
 CHECK_DEADLOCK FALSE
